@@ -323,6 +323,12 @@ class _CastInterp(FinamInterp):
             bound = dict(zip(names, args))
             bound.update(kwargs)
             o = Obj(cls=None, label="built:" + cls.name)
+            try:
+                # private state as the constructors would leave it (spec objects, memo slots): the cast may patch it afterwards
+                from ..absbase import seed_from_init
+                seed_from_init(self, cls, o, dict(bound))
+            except (AnalysisError, Undecided, Raised):
+                pass
             o.fields.update(bound)
             self.built.append((cls.name, bound, o))
             return o
@@ -599,8 +605,198 @@ def r32x_cell_axes(repo, sink):
 
 
 def r32p(repo, sink):
-    for fn in (r32p_gen_points, r32p_order_map, r32p_casts, r32p_locations, r32p_copy_independent, r32x_cell_axes):
+    for fn in (r32p_gen_points, r32p_order_map, r32p_casts, r32p_locations, r32p_copy_independent, r32x_cell_axes, r32o_axes_owned):
         try:
             fn(repo, sink)
         except (AnalysisError, Undecided) as exc:
             sink.unknown("R32", f"analysis:{fn.__name__}", None, f"outside the rule's vocabulary: {exc}")
+
+
+# =========================================================================== R32o: the axes a grid is built from stay the caller's
+class _MArr(Obj):
+    """A float64 coordinate array with identity: `vals` are its (exactly representable) numbers, `caller` says whose it is."""
+
+
+def _marr(vals, caller=True, label="axis array"):
+    o = _MArr(label=label)
+    o.fields.update(vals=list(vals), caller=caller, written=False)
+    return o
+
+
+class _OwnInterp(_NumInterp):
+    """numpy's aliasing rules for the calls a constructor makes on the arrays it is given: asarray / atleast_1d /
+    ascontiguousarray of a float64 array ARE that array, array / copy / astype are new ones; `a[:] = ...` writes into the array."""
+
+    def e_Slice(self, e, env, mod):
+        return Sym("slice", *(self.eval(x, env, mod) if x is not None else None for x in (e.lower, e.upper, e.step)))
+
+    def _vec(self, v):
+        from ..absbase import Vec
+        return Vec(v.fields["vals"]) if isinstance(v, _MArr) else v
+
+    def get_item(self, c, k, node):
+        from ..absbase import Vec
+        if isinstance(c, (_MArr, Vec)) and isinstance(k, Sym) and k.op == "slice":
+            vals = list(self._vec(c))
+            if not all(x is None or (isinstance(x, int) and not isinstance(x, bool)) for x in k.args):
+                raise AnalysisError("symbolic slice of a coordinate array")
+            return Vec(vals[slice(*k.args)])  # (a view; the constructors under analysis write through whole-array slices only)
+        if isinstance(c, _MArr) and isinstance(k, int) and not isinstance(k, bool):
+            return c.fields["vals"][k]
+        if isinstance(c, list) and isinstance(k, Sym) and k.op == "slice":
+            return c[slice(*k.args)]
+        return super().get_item(c, k, node)
+
+    def set_item(self, c, k, v, node):
+        from ..absbase import Vec
+        if isinstance(c, _MArr):
+            if isinstance(k, Sym) and k.op == "slice" and k.args == (None, None, None) or k is Ellipsis or (isinstance(k, Sym) and k.op == "ext" and k.args[0] == "Ellipsis"):
+                new = list(self._vec(v)) if isinstance(v, (Vec, _MArr, list, tuple)) else [v] * len(c.fields["vals"])
+                if len(new) != len(c.fields["vals"]):
+                    self.on_raise(Sym("exc", "ValueError", "could not broadcast"), node)
+                if new != c.fields["vals"]:
+                    c.fields["written"] = True
+                c.fields["vals"] = new
+                return None
+            if isinstance(k, int) and not isinstance(k, bool):
+                if c.fields["vals"][k] != v:
+                    c.fields["written"] = True
+                c.fields["vals"][k] = v
+                return None
+            raise AnalysisError(f"store into a coordinate array at {k!r}")
+        return super().set_item(c, k, v, node)
+
+    def iterate(self, v, node):
+        if isinstance(v, _MArr):
+            return list(v.fields["vals"])
+        return super().iterate(v, node)
+
+    def binop(self, op, left, right, node):
+        return super().binop(op, self._vec(left), self._vec(right), node)
+
+    def compare(self, op, left, right, node):
+        from ..absbase import Vec
+        left, right = self._vec(left), self._vec(right)
+        if isinstance(left, Vec) and isinstance(right, (int, float)) and not isinstance(right, bool):
+            fn = {ast.Gt: lambda a: a > right, ast.GtE: lambda a: a >= right, ast.Lt: lambda a: a < right, ast.LtE: lambda a: a <= right,
+                  ast.Eq: lambda a: a == right, ast.NotEq: lambda a: a != right}.get(type(op))
+            if fn is not None:
+                return Vec(bool(fn(a)) for a in left)
+        return super().compare(op, left, right, node)
+
+    def unaryop(self, op, v, node):
+        from ..absbase import Vec
+        if isinstance(op, ast.Invert) and isinstance(v, (Vec, list)) and all(isinstance(x, bool) for x in v):
+            return Vec(not x for x in v)
+        return super().unaryop(op, v, node)
+
+    def ext_isinstance(self, v, name, node):
+        if name == "type" and isinstance(v, Class):
+            return True
+        return super().ext_isinstance(v, name, node)
+
+    def builtin(self, name, args, kwargs, node):
+        if name == "len" and args and isinstance(args[0], _MArr):
+            return len(args[0].fields["vals"])
+        return super().builtin(name, args, kwargs, node)
+
+    def get_attr(self, obj, attr, node, mod):
+        from ..absbase import Vec
+        if isinstance(obj, _MArr) and attr in ("copy", "astype"):
+            return Sym("arr_method", Ref(obj), attr)
+        if isinstance(obj, (_MArr, Vec)) and attr == "size":
+            return len(self._vec(obj))
+        if isinstance(obj, (_MArr, Vec)) and attr == "ndim":
+            return 1
+        if isinstance(obj, (_MArr, Vec)) and attr == "shape":
+            return (len(self._vec(obj)),)
+        if isinstance(obj, _MArr) and attr == "dtype":
+            return Sym("ext", "float")
+        return super().get_attr(obj, attr, node, mod)
+
+    def call_hook(self, fv, args, kwargs, node, mod):
+        if isinstance(fv, Closure) and getattr(fv.func, "name", "") == "get_enum_value":
+            return args[0]  # (enum conversion of the data location: not part of this obligation)
+        if isinstance(fv, Sym) and fv.op == "arr_method":
+            src = fv.args[0].obj
+            if fv.args[1] == "astype" and kwargs.get("copy") is False:
+                return src
+            return _marr(src.fields["vals"], caller=False, label="copy")
+        return super().call_hook(fv, args, kwargs, node, mod)
+
+    def ext_call(self, name, args, kwargs, node):
+        from ..absbase import Vec
+        short = name.split(".")[-1]
+        a0 = args[0] if args else None
+        if isinstance(a0, _MArr):
+            if short in ("asarray", "atleast_1d", "ascontiguousarray", "asanyarray", "ravel", "squeeze"):
+                return a0  # float64 in, float64 asked for: numpy hands back the very same array
+            if short == "array":
+                return a0 if kwargs.get("copy") is False else _marr(a0.fields["vals"], caller=False, label="copy")
+            if short in ("copy", "deepcopy", "sort", "flip", "flipud", "float64"):
+                vals = list(a0.fields["vals"])
+                if short == "sort":
+                    vals = sorted(vals)
+                if short in ("flip", "flipud"):
+                    vals = vals[::-1]
+                return _marr(vals, caller=False, label="copy")
+            if short == "diff":
+                return super().ext_call(name, [Vec(a0.fields["vals"])] + list(args[1:]), kwargs, node)
+        if short in ("all", "any") and isinstance(a0, (Vec, list, tuple)) and all(isinstance(x, bool) for x in a0):
+            return all(a0) if short == "all" else any(a0)
+        if short in ("empty", "zeros", "ones") and isinstance(a0, int):
+            return [None if short == "empty" else (short == "ones")] * a0
+        if short == "flatnonzero" and isinstance(a0, (Vec, list, tuple)):
+            return Vec(i for i, x in enumerate(a0) if x)
+        return super().ext_call(name, args, kwargs, node)
+
+
+def r32o_axes_owned(repo, sink):
+    """A rectilinear grid built from coordinate arrays of the caller: the directions it reports are those of the arrays as given
+    - also when one array serves two axes, or two grids are built from the same arrays - and the caller's arrays keep their
+    numbers (numpy's asarray of a float64 array is that array: making it increasing in place rewrites the caller's data, and
+    the next look at it finds an increasing axis)."""
+    if not repo.has_cls("RectilinearGrid"):
+        raise AnalysisError("RectilinearGrid not found")
+    c = repo.cls("RectilinearGrid")
+    init = repo.resolve(c, "__init__", "method")
+
+    def build(it, axes):
+        o = Obj(cls=c, label="RectilinearGrid")
+        it.run(init, [], {"axes": list(axes)}, self_obj=o)
+        inc = it.attr(o, "axes_increase", None, None)
+        return o, [bool(x) for x in (inc if isinstance(inc, (list, tuple)) else it.iterate(inc, None))]
+
+    scenarios = []
+    try:
+        # one decreasing array given for both axes
+        it = _OwnInterp(repo)
+        a = _marr([3, 2, 1])
+        _g, inc = build(it, [a, a])
+        scenarios.append(("one decreasing array for both axes", inc, [False, False], [a], [[3, 2, 1]]))
+        # two grids from the same arrays
+        it = _OwnInterp(repo)
+        x, y = _marr([0, 1, 2]), _marr([5, 3, 1])
+        _g1, inc1 = build(it, [x, y])
+        _g2, inc2 = build(it, [x, y])
+        scenarios.append(("the first of two grids built from the same arrays (x increasing, y decreasing)", inc1, [True, False], [x, y], [[0, 1, 2], [5, 3, 1]]))
+        scenarios.append(("the second of two grids built from the same arrays (x increasing, y decreasing)", inc2, [True, False], [x, y], [[0, 1, 2], [5, 3, 1]]))
+    except Raised as r:
+        sink.bad("R32", "axes-owned:RectilinearGrid", init, f"building a rectilinear grid from the caller's float arrays raises {r.name}")
+        return
+    except (Undecided, AnalysisError) as exc:
+        sink.unknown("R32", "axes-owned:RectilinearGrid", init, f"constructor outside vocabulary: {exc}")
+        return
+    worst = None
+    for name, inc, want, arrays, given in scenarios:
+        if inc != want:
+            worst = worst or (f"{name}: axes_increase is {inc}, the arrays as given say {want} - a decreasing axis that is taken for an increasing one "
+                              "pairs every value with the mirrored coordinate")
+    for name, _inc, _want, arrays, given in scenarios:
+        for arr, g in zip(arrays, given):
+            if arr.fields["vals"] != g:
+                worst = worst or (f"{name}: the caller's array {g} reads {arr.fields['vals']} after the construction (the constructor works on the array "
+                                  "it was given, not on a copy): whoever uses it next - a second grid, the model itself - sees other coordinates")
+    sink.check(worst is None, "R32", "axes-owned:RectilinearGrid", init,
+               ok="the grid works on its own copies of the given coordinate arrays: directions as given, also for shared arrays and repeated use",
+               bad=worst or "")
